@@ -32,7 +32,7 @@ def run(tier):
         sf = []
         for j, fam in enumerate(t["stems"]):
             sf += ss.stem_family_cases(sc, fam["maxk"], fam["lens"], fam["mincross"], fam["stars"], tag=f"s{j}x")
-        cases = ex + kn + rnd + sf
+        cases = ex + kn + rnd + sf + ss.clique_cases()
         rec = lib.pmap(ss._rec_bp_c02, cases)
         domain_check([c for c in rec if c["id"].startswith("m")], t["maxn"], sc)
         res = lib.trace_validate("Trace_SecStruct", "Trace_SecStruct_C02.cfg", rec, sc)
